@@ -10,7 +10,7 @@ ANCHORS = ["pyoma2.functions.gen:MAC", "pyoma2.functions.gen:MPC", "pyoma2.funct
 REQUIRED_MONITORS = ["views-of-one-array@MAC", "set=columns@MCF", "arguments-unchanged+auto-MAC", "mixed-dtype MAC", "range@MAC", "range@MPC", "range@MPD", "range@MCF", "shape+symmetry@MAC", "scale-invariance", "collinear-exact", "near-unit-length MAC",
                      "MSF(v,cv)=c", "contracts-active-during-SSI-run"]
 CLASSES = ["generic", "generic_unit_normalised", "generic_zero_or_real_components", "nearly_collinear_1e-8", "nearly_collinear_1e-3", "collinear", "collinear_unit_normalised", "collinear_zero_components",
-           "collinear_halves", "constant", "isotropic_reference", "ring", "sets"]
+           "collinear_halves", "constant", "isotropic_reference", "ring", "nearly_collinear_1e-5", "real_with_quadrature_components", "sets"]
 ALL_STATES = ["class:" + c for c in CLASSES] + ["n=2", "n>=33"]
 REQUIRED_STATES = ["class:" + c for c in CLASSES] + ["n=2", "sets with more shapes than components"]
 RULE = ("icontract postconditions (range, shape, finiteness) attached to the real gen.MAC/MPC/MPD/MCF/MSF and evaluated on every call made by "
@@ -182,6 +182,18 @@ def draw(rng, cls):
             phi[k[2]] = 1j * phi[k[2]].imag
     elif cls == "nearly_collinear_1e-8":
         phi = v + 1j * 1e-8 * rng.standard_normal(n)
+    elif cls == "nearly_collinear_1e-5":
+        # a real shape whose components carry phase errors of a few microradians (the scatter an identification leaves on a normal mode): the
+        # indicators are continuous there - MPD is that scatter, whatever the overall phase of the shape
+        phi = v * (1 + 1j * float(rng.uniform(2e-6, 9e-6)) * rng.uniform(-1, 1, n))
+    elif cls == "real_with_quadrature_components":
+        # mostly real components plus a few purely imaginary ones (exactly 90 degrees off the best-fit line, e.g. a sensor in quadrature)
+        phi = v.astype(complex)
+        kq = rng.permutation(n)[: max(1, n // 4)]
+        phi[kq] = 1j * 0.3 * v[kq]
+        if np.sum(phi.real**2) <= np.sum(phi.imag**2):
+            phi = v.astype(complex)
+            phi[int(kq[0])] = 1j * 0.1 * v[int(kq[0])]
     elif cls == "nearly_collinear_1e-3":
         phi = v + 1j * 1e-3 * rng.standard_normal(n)
     elif cls == "collinear":
